@@ -48,6 +48,14 @@ def check_run(ctx, prog, y, tr, seed, case=None):
     tasks = {t['ord']: t for t in snap['tasks']}
     wf = snap['wfs'][0]
     hist = []
+    names = [t['name'] for t in tasks.values() if t['wf'] == wf['ord']]
+    if len(set(names)) < len(names):
+        # a task was activated more than once although the definition is of the single-activation class (a join that
+        # fails - an inbound route can no longer fire - dispatches its on-error clause at every refresh, the first
+        # time before its inbound context is evaluated: the C04 family "a join runs exactly once", not data flow):
+        # outside the class this stream is about
+        ctx.count('flow', 'skipped:task-activated-more-than-once')
+        return
     for t in tasks.values():
         ctx_stream.learn_paths(t['published'])
     for t in tasks.values():
@@ -84,6 +92,26 @@ def check_run(ctx, prog, y, tr, seed, case=None):
         ctx_stream.check_leaves(ctx, 'flow', causal, h['name'],
                                 {k: v for k, v in (row['in_context'] or {}).items() if k not in INTERNAL},
                                 dict(case, task=row['name']))
+    # ---- "... and to the workflow output": with no `output:` clause the output of a successful run is the final
+    # context = what a join of ALL the end tasks (completed, no next tasks) would see; every leaf an end task
+    # published is in it
+    if not prog.get('output') and wf['state'] == 'SUCCESS' and isinstance(wf.get('output'), dict):
+        ends = [h['name'] for h in h2 if not [x for x in hist if x['name'] == h['name']][0]['row']['next_tasks']]
+        virt = h2 + [{'name': '<workflow output>', 'parents': ends, 'published': {}}]
+        c2 = ctx_stream.Causal(virt)
+        out = {k: v for k, v in wf['output'].items() if k not in INTERNAL}
+        ctx.count('flow', 'output-checked:%d-end-tasks' % min(len(ends), 8))
+        ctx_stream.check_leaves(ctx, 'flow', c2, '<workflow output>', out, dict(case, task='<workflow output>'))
+        for e in ends:
+            for v, leaves in c2.leaves[e].items():
+                others = [a for a in c2.anc['<workflow output>'] if v in c2.leaves[a]]
+                for p in leaves:
+                    if any(p not in c2.leaves[a][v] for a in others):
+                        continue
+                    if ctx_stream.lookup(out, p)[0] != 'leaf':
+                        ctx.violation('end task %s published %s, the workflow output does not have it'
+                                      % (e, '.'.join(p)), dict(case, leaf=list(p), end_task=e),
+                                      {'kind': 'end-task-publication-missing-from-output'})
     if ctx_stream.shape_change(h2):
         ctx.count('flow', 'shape-changing-history')
         return
@@ -153,6 +181,24 @@ def hist_to_program(hist):
             'output': {'o0': ['var', ctx_stream.VARS[0]]}}
 
 
+def patch_batches(size):
+    """the database read of the end tasks in slices of `size` rows instead of 20 (the loop of
+    sqlalchemy.api.get_completed_task_executions_as_batches re-stated with the slice size a parameter, same query,
+    same slicing), so that a handful of end tasks spans several batches; returns the undo function"""
+    from mistral.db.v2 import api as db_api
+    from mistral.db.v2.sqlalchemy import api as sa_api
+    orig = db_api.get_completed_task_executions_as_batches
+
+    def small(**kwargs):
+        query = sa_api._get_completed_task_executions_query(kwargs)
+        idx = 0
+        while idx < query.count():
+            yield query.slice(idx, idx + size).all()
+            idx += size
+    db_api.get_completed_task_executions_as_batches = small
+    return lambda: setattr(db_api, 'get_completed_task_executions_as_batches', orig)
+
+
 def _plain_keys(hashed=True):
     # the model keeps version keys as plain leaf paths; real md5 keys are mapped back (ctx_stream.UNHASH)
     from harness import boot
@@ -168,16 +214,24 @@ def run_chunk(ctx, n_programs):
     tries = 0
     while done < n_programs and tries < n_programs * 6:
         tries += 1
+        batch = None
         if rng.random() < 0.45:
             # the fork/join publish histories of the ctx stream (nested dict before a fork, a leaf
             # republished in one branch, wholesale republication without it in a sibling, chained joins,
             # branches from independent roots) as real workflows: concurrent publishers of one VARIABLE
             # are allowed here, the leaf-granular monitor knows what the statement says about them
-            hist = (ctx_stream.gen_fork_nested if rng.random() < 0.6 else ctx_stream.gen_multi_root)(rng)
-            if len(hist) > 12:
+            r = rng.random()
+            hist = (ctx_stream.gen_fork_nested if r < 0.45 else ctx_stream.gen_multi_root if r < 0.7
+                    else ctx_stream.gen_wide_ends)(rng)
+            if len(hist) > (16 if r >= 0.7 else 12):
                 continue
             prog = hist_to_program(hist)
-            ctx.count('flow', 'program:publish-history-motif')
+            if r >= 0.7:
+                # many end tasks: no `output:` clause (the output is the whole final context) and the end tasks
+                # are read from the database in batches of 2 or 3 rows
+                prog['output'] = None
+                batch = rng.choice([2, 2, 3])
+            ctx.count('flow', 'program:publish-history-motif' + (',wide,batch=%d' % batch if r >= 0.7 else ''))
             table = {}
         else:
             prog = wfgen.gen_program(rng, p_bad=0.0, p_cmd=0.0, p_fail=0.08)
@@ -193,6 +247,7 @@ def run_chunk(ctx, n_programs):
         _plain_keys(hashed)
         ctx.count('flow', 'hashed-version-keys' if hashed else 'plain-version-keys')
         w = EngineWorld(seed=seed)
+        undo = patch_batches(batch) if batch else (lambda: None)
         try:
             tr = er.run_case(w, [y], 'wf', {}, er.Oracle(table), random.Random(seed), policy=policy)
         except Exception as e:
@@ -201,15 +256,21 @@ def run_chunk(ctx, n_programs):
                 ctx.count('flow', 'rejected')
                 continue
             raise
+        finally:
+            undo()
         done += 1
         check_run(ctx, prog, y, tr, seed, {'stream': 'flow', 'program': prog, 'yaml': y, 'table': table,
-                                           'policy': policy, 'seed': seed, 'hashed': hashed})
+                                           'policy': policy, 'seed': seed, 'hashed': hashed, 'batch': batch})
 
 
 def replay(ctx, case):
     from harness.engine_driver import EngineWorld
     _plain_keys(case.get('hashed', True))
     w = EngineWorld(seed=case['seed'])
-    tr = er.run_case(w, [case['yaml']], 'wf', {}, er.Oracle(case['table']), random.Random(case['seed']),
-                     policy=case['policy'])
+    undo = patch_batches(case['batch']) if case.get('batch') else (lambda: None)
+    try:
+        tr = er.run_case(w, [case['yaml']], 'wf', {}, er.Oracle(case['table']), random.Random(case['seed']),
+                         policy=case['policy'])
+    finally:
+        undo()
     check_run(ctx, case['program'], case['yaml'], tr, case['seed'], case)
